@@ -15,6 +15,7 @@ mod props {
     pub mod mix;
     pub mod c10;
     pub mod scope;
+    pub mod c17;
 }
 
 use common::{CaseOut, Tier};
@@ -31,6 +32,7 @@ fn prop_header(prop: &str) -> &'static str {
         "C01" | "C02" => props::drift::HEADER,
         "C11" | "C13" | "C14" | "C20" => props::mix::HEADER,
         "C15" | "C16" => props::scope::HEADER,
+        "C17" => props::c17::HEADER,
         _ => panic!("unknown property {prop}"),
     }
 }
@@ -43,6 +45,7 @@ fn prop_gen(prop: &str, rng: &mut Rng, idx: usize, tier: Tier) -> CaseOut {
         "C13" => props::mix::generate_c13(rng, idx, tier),
         "C14" => props::mix::generate_c14(rng, idx, tier),
         "C20" => props::mix::generate_c20(rng, idx, tier),
+        "C17" => props::c17::generate(rng, idx, tier),
         "C15" => props::scope::generate_c15(rng, idx, tier),
         "C16" => props::scope::generate_c16(rng, idx, tier),
         "C01" => props::drift::generate(rng, idx, tier, false),
